@@ -15,6 +15,12 @@ const responsePaddingMaxSize = 32
 // to a response: the option code, the option length, and the padding itself.
 const maxPaddingOptLen = 4 + responsePaddingMaxSize
 
+// dnsCryptReservedLen is the number of bytes that the DNSCrypt module reserves
+// for the encryption header in every response.  The module truncates the
+// responses to the maximum size without these bytes itself, but it doesn't
+// remove the remaining answers, unless the response is sent over UDP.
+const dnsCryptReservedLen = 64
+
 // respPadBuf is a fixed buffer to draw on for padding.
 var respPadBuf [responsePaddingMaxSize]byte
 
@@ -32,7 +38,7 @@ func normalizeTCP(proto Protocol, req, resp *dns.Msg) {
 func normalize(network Network, proto Protocol, req, resp *dns.Msg, maxMsgSize uint16) {
 	reqOpt := req.IsEdns0()
 	if reqOpt == nil {
-		truncate(resp, maxDNSSize(network, 0, maxMsgSize))
+		truncate(resp, maxDNSSize(network, 0, maxMsgSize)-reservedLen(proto))
 		resp.Compress = true
 
 		return
@@ -71,7 +77,7 @@ func normalize(network Network, proto Protocol, req, resp *dns.Msg, maxMsgSize u
 
 	// Make sure that we don't send messages larger than the protocol supports.
 	// The padding is added after the truncation, so leave room for it.
-	maxSize := maxDNSSize(network, ednsUDPSize, maxMsgSize)
+	maxSize := maxDNSSize(network, ednsUDPSize, maxMsgSize) - reservedLen(proto)
 	needsPadding := proto.HasPaddingSupport() && findOption[*dns.EDNS0_PADDING](reqOpt) != nil
 	if needsPadding {
 		maxSize -= maxPaddingOptLen
@@ -98,6 +104,16 @@ func truncate(resp *dns.Msg, size int) {
 	if resp.Truncated {
 		resp.Answer = nil
 	}
+}
+
+// reservedLen returns the number of bytes of the maximum message size that
+// must be left to the protocol.
+func reservedLen(proto Protocol) (n int) {
+	if proto == ProtoDNSCrypt {
+		return dnsCryptReservedLen
+	}
+
+	return 0
 }
 
 // maxDNSSize returns the maximum buffer size for this network.  For
